@@ -131,7 +131,7 @@ func (u *unit) coqType(t types.Type, pos token.Pos) string {
 		}
 		if u.mode == "z" {
 			// width-carrying aliases of Z (Lib/ZOps.v): the proofs read the Go type of a binder from them
-			return fmt.Sprintf("w%d", w)
+			return fmt.Sprintf("zw%d", w)
 		}
 		return "word"
 	}
@@ -763,7 +763,7 @@ func (c *fctx) kparams(vars []types.Object) (formal, actual string) {
 		ns = append(ns, n)
 		if _, isIface := v.Type().Underlying().(*types.Interface); isIface && !isError(v.Type()) {
 			if c.u.mode == "z" {
-				fs = append(fs, "("+n+" : w0)")
+				fs = append(fs, "("+n+" : zw0)")
 			} else {
 				fs = append(fs, "("+n+" : word)")
 			}
